@@ -117,6 +117,8 @@ def render_ini_item(it):
         return n + spaces(s1) + sep + spaces(s2) + v
     if it[0] == "comment":
         return spaces(it[3] if len(it) > 3 else 0) + (";" if it[1] else "#") + it[2]
+    if it[0] == "cont":
+        return spaces(it[1]) + it[2]          # a continuation line of the preceding option's value (indent >= 1)
     return ""
 
 
@@ -202,16 +204,34 @@ def table_rows(t):
     return got, want
 
 
+def ini_piece(text):
+    """one physical line of a value as the format defines it: a '#' starts an inline comment, trailing blanks and
+    trailing continuation backslashes are not data; everything in FRONT of that comes back exactly"""
+    return text.split("#")[0].rstrip(" \\")
+
+
+def ini_ambiguous(text):
+    """generator-side exclusion (rendered stream only): a value line made ONLY of backslashes and blanks — marker or data?"""
+    return text != "" and text.strip(" \\") == ""
+
+
 def ini_expect(doc):
-    """what an INI document says: merged sections in order; option -> last value (lower-cased names)"""
+    """what an INI document says: merged sections in order; option -> last value (lower-cased names);
+    a value is its lines joined by one blank"""
     secs = OrderedDict()
-    cur = None
+    cur, last = None, None
     for it in doc:
         if it[0] == "sec":
-            cur = secs.setdefault(it[2], OrderedDict())
+            cur, last = secs.setdefault(it[2], OrderedDict()), None
         elif it[0] == "opt" and cur is not None:
-            # in this format a '#' inside a value starts an inline comment: it is not data
-            cur[it[1].lower()] = it[5].split("#")[0].rstrip(" ")
+            pieces = [] if it[5] == "" else [ini_piece(it[5])]
+            cur[it[1].lower()] = " ".join(pieces)
+            last = (cur, it[1].lower(), pieces)
+        elif it[0] == "cont" and last is not None:
+            last[2].append(ini_piece(it[2]))
+            last[0][last[1]] = " ".join(last[2])
+        elif it[0] != "cont":
+            pass
     return secs
 
 
@@ -237,6 +257,7 @@ def ini_tainted(doc):
                     out.add(last)
             else:
                 last = None
+        # "cont" and "blank" items leave `last` as it is
     return out
 
 
@@ -425,6 +446,30 @@ def evaluate(c):
         if len(kwsets) == 1 and not c.get("parent"):
             return "ks\t%s\t%s\t%s" % (B(c["rkc"]), R(rows), P(kwsets[0])), answers[0], fails
         return "ksseq\t%s\t%s\t%s" % (B(c["rkc"]), R(rows), "\t".join(P(k) for k in kwsets)), " | ".join(answers), fails
+    if op == "kshist":
+        # successive keyword_search calls on PLAIN lists (parent=None) in this one process: every call must answer as the
+        # oracle does for that call alone; a list may be the SAME object as in an earlier call, grown in between
+        objs, answers, parts = {}, [], []
+        for i, call in enumerate(c["calls"]):
+            if "lines" in call:
+                data = parse_delimited_table(call["lines"], delim=call.get("d"))
+            else:
+                data = [OrderedDict(r) for r in call["rows"]]
+            if call.get("grow_of") is not None and call["grow_of"] in objs:
+                rows = objs[call["grow_of"]]            # the same list object as before ...
+                rows.extend(data[len(rows):])           # ... with the new rows appended
+            else:
+                rows = data
+            objs[i] = rows
+            kwargs = OrderedDict((k, v) for k, v in call["kwargs"])
+            r = keyword_search(rows, row_keys_change=call["rkc"], **kwargs)
+            answers.append(show_rows(r))
+            want = ks_expect(rows, call["rkc"], call["kwargs"])
+            if [list(x.items()) for x in r] != [list(x.items()) for x in want] or any(not any(x is y for y in rows) for x in r):
+                fails.append(("call %d of the history: keyword_search(%r, row_keys_change=%r) = %r on %r; that call alone selects %r" % (
+                    i, call["kwargs"], call["rkc"], r, rows, want), None))
+            parts.append("%s\t%s\t%s" % (B(call["rkc"]), R(rows), P(call["kwargs"])))
+        return "kshist\t" + "\t".join(parts), " | ".join(answers), fails
     if op == "sort":
         return "sort\t" + L(c["keys"]), L(sorted(c["keys"])), fails
     if op == "hashseeds":
@@ -837,6 +882,56 @@ def gen_tab_ks(rng):
             "kwsets": gen_kwsets(rng, names, data, rng.choice([2, 3]) if parent else 1)}
 
 
+def gen_ks_history(rng):
+    """2-4 searches on plain lists whose FIRST rows have the same keys while later rows of a later list carry extra
+    fields (short first rows from parse_delimited_table, or a list that grew), the later search naming such a field"""
+    base = rng.sample(["name", "STATE", "a b", "Use%", "id", "fix-up path", "I/O"], rng.choice([1, 2, 3]))
+    extra = rng.sample(["extra", "x-tra", "Mounted.on", "note", "a_b"], rng.choice([1, 2]))
+    vals = ["up", "down", "", "5%", "x y", "UP", "n/a", "1"]
+
+    def row(keys):
+        return [[k, rng.choice(vals)] for k in keys]
+    lists = {
+        "A": [row(base) for _ in range(rng.choice([1, 2, 3]))],
+        "B": [row(base)] + [row(base + extra) if rng.random() < 0.8 else row(base) for _ in range(rng.choice([1, 2, 4]))],
+    }
+    # the same shape from a white-space delimited table whose first data row lost its trailing (empty) cells
+    heads = ["h%d" % i for i in range(len(base))] + ["e%d" % i for i in range(len(extra))]
+    cell = ["up", "down", "5%", "UP", "n/a", "1"]
+    tlines = ["  ".join(heads), " ".join(rng.choice(cell) for _ in base)]
+    tlines += [" ".join(rng.choice(cell) for _ in (heads if rng.random() < 0.8 else base)) for _ in range(rng.choice([1, 2, 3]))]
+    calls, prev = [], {}
+    for i in range(rng.choice([2, 3, 4])):
+        kind = rng.choice(["A", "B", "B", "T", "grow"]) if i else rng.choice(["A", "A", "B", "T"])
+        call = {"rkc": rng.random() < 0.5}
+        if kind == "T":
+            call["lines"], call["d"] = tlines, None
+            keys_all, first = heads, heads[:len(base)]
+            cells = [x for l in tlines[1:] for x in l.split()]
+        else:
+            if kind == "grow" and prev:
+                j = rng.choice(sorted(prev))
+                call["grow_of"] = j
+                call["rows"] = prev[j] + [row(base + extra) for _ in range(rng.choice([1, 2]))]
+            else:
+                call["rows"] = lists["B" if kind == "grow" else kind]
+            keys_all, first = base + extra, base
+            cells = [v for r in call["rows"] for _, v in r if v]
+            prev[i] = call["rows"]
+        kws, used = [], set()
+        for _ in range(rng.choice([1, 1, 2])):
+            k = kw_of(rng.choice(keys_all[len(first):] + keys_all[len(first):] + first))
+            k += rng.choice(["", "", "__contains", "__startswith", "__lower_value"])
+            if k in used:
+                continue
+            used.add(k)
+            v = rng.choice(cells) if cells and rng.random() < 0.8 else rng.choice(vals)
+            kws.append([k, rng.choice([v, v, v[:1], "", v.lower()])])
+        call["kwargs"] = kws
+        calls.append(call)
+    return {"op": "kshist", "calls": calls}
+
+
 def gen_sort(rng):
     """heading sets for the order the table is built in: prefixes, case, space/dash/underscore, non-ASCII, astral"""
     pool = SPECIAL + SPACEY + ["", "a", "A", "ab", "a ", "a_", "a-", "a~", "Z", "z", "é", "e\u0301", "\U0001f600", "\uffff", "\ud7ff",
@@ -886,6 +981,9 @@ INI_SPECIAL_OPTS = ["max;size", "retry;delay", "a#b", "comment # in key", "k.e-y
                     "c++", "\"q\"", "'s'", "it's", "a,b", "<tag>", "{x}", "a|b", "~", "^", "$HOME", "`cmd`", "back\\slash", "semi;", "hash#", "K;K", "A#b",
                     "-", "_", ".", "0", "x ; y", "x # y", "&&"]
 INI_SPECIAL_SECS = ["a;b", ";lead", "#lead", "x#y", "a=b", "k:v", "p/q r", "s(1)", "%", "q?", "it's", "a.b-c_d", "x ; y", "DEFAULT;", "!"]
+INI_BS_VALS = ["\\\\fileserver\\public\\docs", "\\d+\\.\\d+", "\\t- item", "\\ leading-escaped-space", "\\x", "\\ \\x", "a\\b", "a \\ b", "mid\\\\dle",
+               "end\\", "end \\", "two\\\\", "\\start and end\\", "C:\\dir\\", "\\\\\\triple", "x \\\\ y", "\\;semi", "\\=", "a\\ #c", "\\", "\\\\", "\\ \\"]
+INI_CONT_TEXTS = ["\\d+", "\\\\server\\share", "\\ x", "b", "more words", "x = y", "[x]", "tail\\", "tail \\", "a;b", "\\t- item \\", "mid\\dle", "\\", "\\ \\", "k: v"]
 INI_SPECIAL_VALS = ["a;b", "a ;b", ";x", "a#b", "a #b", "a # b ; c", "x;", "1;2;3", "v", "", "a = b", "k: v", "[x]", "(1)", "\"q\"", "yes", "No", "p/q?r=1&s=2"]
 
 
@@ -915,8 +1013,14 @@ def gen_ini_special(rng):
         for _ in range(rng.choice([1, 2, 3, 5])):
             r = rng.random()
             if r < 0.7:
-                doc.append(["opt", rng.choice(opts), rng.choice([0, 1, 2]), rng.choice("=:"), rng.choice([0, 1, 2]),
-                            rng.choice(INI_SPECIAL_VALS + INI_VALS)])
+                val = rng.choice(INI_SPECIAL_VALS + INI_VALS + INI_BS_VALS + INI_BS_VALS)
+                if ini_ambiguous(val):
+                    val = "\\x"
+                doc.append(["opt", rng.choice(opts), rng.choice([0, 1, 2]), rng.choice("=:"), rng.choice([0, 1, 2]), val])
+                while rng.random() < 0.25:          # continuation lines of this value
+                    text = rng.choice(INI_CONT_TEXTS)
+                    if not ini_ambiguous(text):
+                        doc.append(["cont", rng.choice([1, 2, 4]), text])
             elif r < 0.93:
                 doc.append(["comment", rng.random() < 0.5, rng.choice(["", " c", " key = hidden", "max;size = 9", " x ; y # z"]),
                             rng.choice([0, 0, 0, 1, 4])])
@@ -961,7 +1065,8 @@ def gen_ini_irregular(rng):
     k = rng.randrange(3)
     if k == 0:
         lines.insert(rng.randrange(len(lines) + 1), rng.choice(["novalue", "novalue  ", "k = v # inline", "k = v ; kept", "max;size", "  continued line", "   ; indented comment", "k\u00e9 = \u00e9t\u00e9",
-                                                             "k[0] = 1", "= v", "[ ]", "[a] # c", "k = v\\", "\tk\t=\tv", "a]b = 1", "k ="]))
+                                                             "k[0] = 1", "= v", "[ ]", "[a] # c", "k = v\\", "\tk\t=\tv", "a]b = 1", "k =",
+                                                             "k = \\", "k = \\\\", "k = \\ \\", "k = a\\ \\", "  \\", "  \\ \\", "k = \\x \\", "   \\d+"]))
     elif k == 1:
         lines = ["stray = 1"] + lines
     return {"op": "ini", "lines": lines, "qs": c["qs"], "anv": rng.random() < 0.5}
@@ -1079,6 +1184,7 @@ def run(chk):
     add(gen_ks_special, 500)
     add(gen_tab_ks, 300)
     add(gen_sort, 200)
+    add(gen_ks_history, 300)
     add(gen_ini, 500, False)
     add(gen_ini, 300, True)
     add(gen_ini_irregular, 200)
